@@ -119,6 +119,21 @@ def _long_runs(values):
     return count, bad
 
 
+def _macro_runs(values, depth):
+    """Histories over macro-ops {next x1, next x9, next x10, set a, set b}: several wrap-arounds with several updates
+    in between, without deduplication."""
+    prod = SeqProduct(("zero", 0), values)
+    macros = [[("next",)], [("next",)] * 9, [("next",)] * 10, [("set", "account", values[1])], [("set", "ping", values[3])]]
+    count, bad = 0, []
+    for combo in itertools.product(range(len(macros)), repeat=depth):
+        hist = [op for i in combo for op in macros[i]]
+        count += 1
+        what = explorer.replay(prod, hist)
+        if what and len(bad) < 3:
+            bad.append((hist, what))
+    return count, bad
+
+
 def run(tier, seed):
     loader.install_shims()
     values = VALUES if tier == "quick" else VALUES + (7, 252, 1757, 64008)
@@ -165,6 +180,16 @@ def run(tier, seed):
                 "case": {"kind": "history", "init": ["zero", 0], "values": list(values), "history": hist},
             }
         )
+    macroc, macrobad = _macro_runs(values, 5 if tier == "quick" else 6)
+    for hist, what in macrobad:
+        violations.append(
+            {
+                "key": "sequencer-macro:" + (what.split(":")[1][:20] if ":" in what else what[:20]),
+                "what": f"history of {len(hist)} ops: {what}",
+                "case": {"kind": "history", "init": ["zero", 0], "values": list(values), "history": hist},
+            }
+        )
+    longc += macroc
     coverage = {
         "states": tot_states,
         "transitions": tot_trans + deep * depth + longc * 46,
@@ -176,6 +201,7 @@ def run(tier, seed):
         "undeduplicated_histories": deep,
         "undeduplicated_depth": depth,
         "long_runs": longc,
+        "macro_histories": macroc,
         "start_values": list(values),
         "constructor_paths": list(CTORS),
         "exhaustive": bool(fix),
@@ -184,7 +210,7 @@ def run(tier, seed):
             "next_sequence + set_sequence_start(start built by every constructor path x value set); distinct by "
             "generic snapshot of both real objects + model (start, n mod 10); plus every history of "
             "undeduplicated_depth over {next, set a, set b} replayed without deduplication, plus 46-request runs "
-            "with one update at every position"
+            "with one update at every position, plus every sequence of 5/6 macro-ops {next, next x9, next x10, set a, set b}"
         ),
         "samples": samples,
     }
